@@ -17,7 +17,7 @@ Definition mk_cpu (c : Z) : cpu :=
   if c =? 0 then Cpu32 else if c =? 1 then CpuAmd64 else if c =? 2 then CpuArm64 else CpuOther64.
 (* regions: kind 0 = (base,size,prot) memory info; kind 1 = (lo,hi,rwx bits) maps *)
 Definition mk_regions (kind : Z) (l : list (Z * Z * Z)) : list region :=
-  if kind =? 0 then regions_of_info_src l else regions_of_maps l.
+  if kind =? 0 then regions_of_info_src l else regions_of_maps_src l.
 
 Definition run_try (a reg br : Z) (ctx : option (Z * list Z)) (kind : Z) (regs : list (Z * Z * Z)) (op : Z)
   : list (list Z) :=
